@@ -155,6 +155,38 @@ class OptRunner:
                 new = self.eff[gi]["momentum"] * edits["momentum_scale"]
                 grp["momentum"] = hp["momentum"] = new
 
+    def make_grads(self, s: dict) -> list[list[torch.Tensor | None]]:
+        idx = 0
+        grads: list[list[torch.Tensor | None]] = []
+        for gi, g in enumerate(self.groups):
+            n = len(g["shapes"])
+            sub = dict(s)
+            sub["mask"] = s["mask"][idx: idx + n]
+            sub["gseed"] = s["gseed"] + 1000 * gi
+            grads.append(gen.step_grads(g["shapes"], sub, gen.DT[g["cfg"]["pdtype"]]))
+            idx += n
+        return grads
+
+    def raw_step(self, s: dict) -> Exception | None:
+        """Edits + gradients + optimizer.step() without any verification (used by differential oracles)."""
+        if "edits" in s:
+            self.apply_edits(s["edits"])
+        grads = self.make_grads(s)
+        for gi, ps in enumerate(self.params):
+            for p, g in zip(ps, grads[gi]):
+                p.grad = None if g is None else g.clone()
+        try:
+            self.opt.step()
+        except Exception as e:  # noqa: BLE001
+            return e
+        for gi, ps in enumerate(self.params):
+            if any(g is not None for g in grads[gi]):
+                self.t[gi] += 1
+        return None
+
+    def named_params(self) -> list[tuple[str, torch.nn.Parameter]]:
+        return [(f"g{gi}.p{pi}", p) for gi, ps in enumerate(self.params) for pi, p in enumerate(ps)]
+
     # ------------------------------------------------------------------ one step
     def step(self, s: dict) -> list[Failure]:
         if self.dead:
